@@ -14,8 +14,8 @@
   tables: a changed branch (Float written with `Float64bits`, Int read without `int32(·)`, a dropped clamp, another
   divisor, another `ParseFloat` bit size, a type moved to another `case`) breaks a named theorem or the extractor before any
   sample runs.  Covered: the Vector1 (scalar property) writer and reader, binary and ASCII; the 2-, 3- and 4-vector
-  writers (binary and ASCII, `fallthrough` included) and binary readers.  NOT covered (listed in notes/C04.md): the ASCII
-  2- / 3- / 4-vector readers, the list readers.  (Core Lean only.)
+  writers (binary and ASCII, `fallthrough` included) and binary readers.  the ASCII 2- / 3- / 4-vector readers.  NOT covered
+  (listed in notes/C04.md): the list readers.  (Core Lean only.)
 -/
 import PolyVerif.Model.Ply
 import PolyVerif.Gen.PlyValues
@@ -154,6 +154,30 @@ theorem vecBinRead_from_source (c : Coding α) (e : Endian) (t : SType) (buf : B
 theorem decScalarBin_unimplemented (c : Coding α) (e : Endian) (dim : Nat) (t : SType) (buf : Bytes) (off : Nat)
     (h : t ∉ [SType.uchar, .int, .float, .double]) : decScalarBin c e dim t buf off = .error .panic := by
   cases t <;> simp_all [decScalarBin]
+
+/-- one component of an ASCII reader: the token at column `o`, parsed with `parseF` (= `strconv.ParseFloat(·, 32)`) -/
+def tokRead (c : Coding α) (toks : List Bytes) (o : Nat) : R α :=
+  match toks[o]? with
+  | none => .error .panic
+  | some t => match c.parseF t with | none => .error .err | some v => .ok v
+
+/-- ASCII 2- / 3- / 4-vector readers: every component is `ParseFloat(token at that component's offset field, 32)` — the
+model's `parseF` —, components in the order X, Y, Z[, W]; then `DivByConstant(255)` exactly when `scalarType == UChar`
+(`Built.readAscii`: one `parseF` per offset in order, then `norm8 dim` on every component iff `b.ty = some .uchar`) -/
+theorem vecAsciiRead_from_source :
+    (∀ p ∈ [(2, PlyValues.v2AsciiRead, PlyValues.v2AsciiReadPost), (3, PlyValues.v3AsciiRead, PlyValues.v3AsciiReadPost),
+            (4, PlyValues.v4AsciiRead, PlyValues.v4AsciiReadPost)],
+      p.2.1 = ((compsOf p.1).zip (["xOffset", "yOffset", "zOffset", "wOffset"].take p.1)).map (fun x => (x.1, x.2, 32)) ∧
+      p.2.2 = [(constOf .uchar, "(DivByConstant 255 v)")]) ∧
+    (∀ (c : Coding α) (b : Built) (toks : List Bytes) (vals : List α),
+      b.offs.mapM (tokRead c toks) = .ok vals →
+      b.readAscii c toks = .ok (if b.ty = some .uchar then vals.map (c.norm8 b.names.length) else vals)) := by
+  refine ⟨by decide, ?_⟩
+  intro c b toks vals h
+  have e : b.readAscii c toks = (do
+      let vals ← b.offs.mapM (tokRead c toks)
+      pure (if b.ty = some .uchar then vals.map (c.norm8 b.names.length) else vals)) := rfl
+  rw [e, h]; rfl
 
 /-- the ASCII scalar reader: `ParseFloat(token, 32)` — the model's `parseF` is the 32-bit parse — then `/ 255` exactly when
 its `scalarType` is `UChar` (`Built.readAscii` normalises iff `b.ty = some .uchar`; dimension 1: `div255`) -/
